@@ -68,6 +68,10 @@ Scenarios ==
     \cup [kind : {"input"}, input : Inputs, tool : {"view", "fold", "stat"}]
     \cup [kind : {"samples"}, list : SampleLists, project : BOOLEAN]
     \cup [kind : {"mutate"}, format : Formats, field : UNION {FieldsOf(f) : f \in Formats}, damage : Damages]
+    \* sizes at which binomial coefficients leave the f64 range and the log-gamma path is taken
+    \cup [kind : {"view"}, o : [opt : {"project-shape"}, val : {"551", "2", "1100", "1101"}], shape : {<<1101>>}]
+    \cup [kind : {"view"}, o : [opt : {"project-individuals"}, val : {"275", "100"}], shape : {<<1101>>, <<301, 3>>}]
+    \cup [kind : {"stat"}, stat : {"pi", "theta", "d_tajima", "d_fu_li", "s", "sum"}, shape : {<<1101>>, <<172>>}]
 
 WellFormed(s) == s.kind = "mutate" => s.field \in FieldsOf(s.format)
 
